@@ -15,7 +15,7 @@ from .. import gen as cgen
 
 PROP = 'C13'
 TIERS = {
-    'quick': {'runs': 6000, 'chunk': 15, 'wall_cap': 80, 'min_budget': 30},
+    'quick': {'runs': 5000, 'chunk': 15, 'wall_cap': 80, 'min_budget': 30},
     'thorough': {'runs': 150000, 'chunk': 40, 'wall_cap': 850, 'min_budget': 60},
 }
 RULE = ('case = seeded glitch-prone circuit + skewed delays + capacity fault plan + accumulation table (shared accumulators, zero/unequal weights, -1 rows) + 1-3 reuse batches with capture times '
